@@ -344,9 +344,9 @@ func VerifC10_RewriterLengths() {
 //verif:reach fits too-large
 //verif:solver cvc5-int
 func VerifC07_EncodeAnyLengths() {
-	schema := base.MustNewLogSchema([]string{"host", "app", "log", "env"})
+	schema := base.MustNewLogSchema([]string{"host", "app", "log", "env", "zone"})
 	cfg := SerializationConfig{
-		EnvironmentFields: []string{"env"},
+		EnvironmentFields: []string{"env", "zone"},
 		RewriteFields: map[string][]bconfig.LogRewriterConfigHolder{
 			"log": {{Value: &rinline.Config{Field: "app"}}, {Value: &rcopy.Config{}}},
 		},
@@ -357,18 +357,19 @@ func VerifC07_EncodeAnyLengths() {
 	host := string(sym.BigBytes("host", 0, 4*maxRecord))
 	app := string(sym.BigBytes("app", 0, 4*maxRecord))
 	log := string(sym.BigBytes("log", 0, 1024*1024))
-	env := "e"
+	env := string(sym.BigBytes("env", 0, 4*maxRecord)) // environment fields come from header tokens too (host, app, ...)
+	zone := "z"
 	if sym.Tier() > 0 {
-		env = string(sym.BigBytes("env", 0, 4*maxRecord))
+		zone = string(sym.BigBytes("zone", 0, 4*maxRecord))
 	}
-	sym.Assume(len(host)+len(app)+len(log)+len(env) <= 4*maxRecord)
-	rec := schema.NewTestRecord2(sym.TimeFromUnixNano(1_600_000_000_000_000_000), base.LogFields{host, app, log, env})
+	sym.Assume(len(host)+len(app)+len(log)+len(env)+len(zone) <= 4*maxRecord)
+	rec := schema.NewTestRecord2(sym.TimeFromUnixNano(1_600_000_000_000_000_000), base.LogFields{host, app, log, env, zone})
 	out := s.SerializeRecord(rec) // obligation: no panic
 	if len(out) > 0 {
-		sym.Assert(len(out) >= len(host)+len(app)+len(log)+len(env), "a non-empty event holds all values")
+		sym.Assert(len(out) >= len(host)+len(app)+len(log)+len(env)+len(zone), "a non-empty event holds all values")
 		sym.Reach("fits")
 	} else {
-		sym.Assert(len(host)+2*len(app)+len(log)+len(env) > 2*maxRecord-200, "only events that cannot fit are given up")
+		sym.Assert(len(host)+2*len(app)+len(log)+len(env)+len(zone) > 2*maxRecord-200, "only events that cannot fit are given up")
 		sym.Reach("too-large")
 	}
 }
